@@ -11,9 +11,11 @@ package c08dhcp
 // buffer with that many bytes behind the payload (the server encodes its reply in place), through Session.Parse
 // and Handler.ProcessPacket.  The part from `@` on is written by Eval: the canonical time, the configuration and
 // the state the implementation was in before each event (dumped after Parse of the frame) — the model runs
-// every event from the implementation's own pre-state.  Compared per event: returned error class, allocation
-// cursors, lease table, replies (type, yiaddr, ciaddr, xid, chaddr, broadcast, options), and in the client
-// direction whether a forged DECLINE went out.
+// every event from the implementation's own pre-state — and, after `#`, per event the option codes of the
+// implementation's reply in wire order (`-`: no reply): the Go map iteration order the model's `replyBytes` is run
+// with.  Compared per event: returned error class, allocation cursors, lease table, replies (type, yiaddr, ciaddr,
+// xid, chaddr, broadcast, options), in the client direction whether a forged DECLINE went out, and `bytes=`: the
+// reply's DHCP message BYTE FOR BYTE (the UDP payload of the frame written) against Model.Dhcp4Frame.replyBytes.
 
 import (
 	"bytes"
@@ -133,11 +135,13 @@ type rawStep struct {
 	cfg     string
 	replies []*c11.Reply
 	why     string
+	ord     string // option codes of the reply in wire order (hex; "-" without a reply): the map iteration order the model is run with
 }
 
 // runRawEv runs one event on the world.
 func runRawEv(w *c11.World, e rawEv) rawStep {
 	var st rawStep
+	st.ord = "-"
 	frame, buf := rawFrame(e)
 	srcMAC := append([]byte{}, frame[6:12]...) // the buffer is overwritten after the call
 	fr, err := w.S.Parse(frame)
@@ -170,10 +174,15 @@ func runRawEv(w *c11.World, e rawEv) rawStep {
 		time.Sleep(10 * time.Microsecond)
 	}
 	declines := 0
-	var reps []string
+	var reps, raws []string
+	st.ord = "-"
 	for _, f := range w.Conn.Take() {
 		if r, ok := c11.DecodeReply(f); ok {
 			st.replies = append(st.replies, r)
+			raws = append(raws, core.Hex(r.Raw))
+			if len(st.replies) == 1 {
+				st.ord = core.Hex(r.Order)
+			}
 			s := r.String()
 			if r.Bad != "" {
 				s += "!" + strings.ReplaceAll(r.Bad, " ", "_")
@@ -209,7 +218,11 @@ func runRawEv(w *c11.World, e rawEv) rawStep {
 	if e.dir == "s" {
 		decl = strconv.Itoa(declines)
 	}
-	st.impl = fmt.Sprintf("%s %s|%s|%s decl=%s", res, pf[0], ls, rs, decl)
+	bs := "-"
+	if len(raws) > 0 {
+		bs = strings.Join(raws, ",")
+	}
+	st.impl = fmt.Sprintf("%s %s|%s|%s decl=%s bytes=%s", res, pf[0], ls, rs, decl, bs)
 	if bad != "" {
 		st.impl += " BAD:" + strings.ReplaceAll(bad, " ", "_")
 	}
@@ -259,7 +272,7 @@ func evalRaw(c *core.Ctx, f []string) *core.Case {
 		return &core.Case{Line: line, Impl: "err construct", Cmp: func(string, string) bool { return true },
 			Oracle: func() (string, string) { return why, "" }}
 	}
-	var impls, pres, done []string
+	var impls, pres, done, ords []string
 	dest := ""
 	cfg := ""
 	trivial := true
@@ -279,6 +292,7 @@ func evalRaw(c *core.Ctx, f []string) *core.Case {
 		}
 		impls = append(impls, st.impl)
 		pres = append(pres, st.pre)
+		ords = append(ords, st.ord)
 		done = append(done, e.String())
 		if len(e.p) >= 240 {
 			trivial = false
@@ -290,7 +304,7 @@ func evalRaw(c *core.Ctx, f []string) *core.Case {
 		}
 	}
 	rawStats(c, impls)
-	line := fmt.Sprintf("dhcp.raw %d %d %s %s @ %d %s %s", cfgIdx, mode, f[3], strings.Join(done, ";"), c11.NowH*c11.Hour, cfg, strings.Join(pres, " "))
+	line := fmt.Sprintf("dhcp.raw %d %d %s %s @ %d %s %s # %s", cfgIdx, mode, f[3], strings.Join(done, ";"), c11.NowH*c11.Hour, cfg, strings.Join(pres, " "), strings.Join(ords, " "))
 	return &core.Case{Line: line, Impl: strings.Join(impls, " / "), Trivial: trivial,
 		Oracle: func() (string, string) {
 			if broken != "" {
